@@ -488,6 +488,13 @@ func negatives(g *gen.Gen) []Req {
 		Req{URI: "/loc/facts/get", Params: map[string]interface{}{"location": "plain", "id": "100%sure %d"}, Neg: "operation fails: no such fact", Echo: "100%sure %d"},
 		Req{URI: "/loc/rules/add", Params: map[string]interface{}{"location": "plain", "rule": map[string]interface{}{"action": map[string]interface{}{"code": "1"}}}, Neg: "operation fails: rule without when/schedule"},
 		Req{URI: "/loc/facts/query", Params: map[string]interface{}{"location": "plain", "query": map[string]interface{}{"bogus": 1.0}}, Neg: "operation fails: unparsable query"},
+		// a required structured parameter that is present but null (JSON null, YAML ~): not given
+		Req{URI: "/loc/facts/add", Params: map[string]interface{}{"location": "plain", "fact": nil, "id": "nullfact"}, Neg: "typed:the fact parameter is null"},
+		Req{URI: "/loc/events/ingest", Params: map[string]interface{}{"location": "plain", "event": nil}, Neg: "typed:the event parameter is null"},
+		Req{URI: "/loc/facts/search", Params: map[string]interface{}{"location": "plain", "pattern": nil}, Neg: "typed:the pattern parameter is null"},
+		Req{URI: "/loc/facts/query", Params: map[string]interface{}{"location": "plain", "query": nil}, Neg: "typed:the query parameter is null"},
+		Req{URI: "/loc/rules/add", Params: map[string]interface{}{"location": "plain", "rule": nil, "id": "nullrule"}, Neg: "typed:the rule parameter is null"},
+		Req{URI: "/loc/facts/replace", Params: map[string]interface{}{"location": "plain", "pattern": map[string]interface{}{"a": "zzz"}, "fact": nil}, Neg: "typed:the fact parameter is null"},
 		Req{URI: "/loc/events/retry", Prep: "throwing-rule", Params: map[string]interface{}{"location": "plain", "work": `{"event":{"e":"boom"}}`}, Neg: "operation fails: the work reaches a rule whose condition throws"},
 		Req{URI: "/loc/events/ingest", Prep: "throwing-rule", Params: map[string]interface{}{"location": "plain", "event": map[string]interface{}{"e": "boom"}}, Neg: "operation fails: the event reaches a rule whose condition throws"},
 		Req{URI: "/loc/events/retry", Params: map[string]interface{}{"location": "plain"}, Neg: "required parameter work missing"},
